@@ -43,6 +43,8 @@ def _shapes(tier, cfg, t, base):
         S += [(M, K, N) for M in (4 * W + 1, 12) for K in (3, 2 * W + 3) for N in (W + 1, 2 * W + 1, 2 * W + 3)]
         # rows left over between the two-sub-block row loop and the scalar rows (M >= 2W, M % 8 in 4..7): the four-row middle zone
         S += [(M, K, N) for M in (2 * W + 5,) for K in (3, 2 * W + 3) for N in (W + 2, 2 * W + 1, 2 * W + 3)]
+        # every remainder class of N modulo the vector width (the masked loads / stores build one mask per class)
+        S += [(2, 3, N) for N in range(W + 1, 2 * W)]
     else:
         main = cfg.isa in MAIN3
         if t == "f64" and main and base:
@@ -86,10 +88,20 @@ def cases(tier, cfg):
                     out.append(Case(f"C17/tmatmul[{t}|M={M},K={K},N={N},lhs={TAGS[l]},rhs={TAGS[r]}]",
                                     f"c17::tmm<{CTYPE[t]},{M},{K},{N},{l},{r}>(fx);", route=route,
                                     cost=0.13 + 0.004 * N + (0.3 if cfg.san else 0)))
+        # unevaluated operands (tensor x expression, expression x tensor, expression x expression): these overloads evaluate and forward the tags
+        eshapes = [(3, 3, 3), (5, 4, W + 2)] if tier == "quick" else [(3, 3, 3), (5, 4, W + 2), (4, 5, 3), (W + 1, W + 1, W + 1)]
+        if t != "i32" or tier == "thorough":
+            for (M, K, N) in eshapes:
+                for l in (0, 1, 2):
+                    for r in (0, 1, 2):
+                        for arg, an in ((1, "te"), (2, "et"), (3, "ee")):
+                            out.append(Case(f"C17/tmatmul[{t}|M={M},K={K},N={N},lhs={TAGS[l]},rhs={TAGS[r]},arg={an}]",
+                                            f"c17::tmm_e<{CTYPE[t]},{M},{K},{N},{l},{r},{arg}>(fx);", route=f"expr.{an}.{TAGS[l]}{TAGS[r]}",
+                                            cost=0.15 + (0.3 if cfg.san else 0)))
     return out
 
 
 def bounds(tier):
-    return {"quick": "f64 cube M,K,N<=5, f32/i32 cube <=3; M in {1,2,5,W+1} x K in {1,3,W+1} x N in {W-1,W,W+1,W+2,2W+1} for f64,f32,i32; + the four-row middle zone M=2W+5 (K in {3,2W+3}, N in {W+2,2W+1,2W+3}); nine tag pairs; S2,A1,A2,A5",
+    return {"quick": "f64 cube M,K,N<=5, f32/i32 cube <=3; M in {1,2,5,W+1} x K in {1,3,W+1} x N in {W-1,W,W+1,W+2,2W+1} for f64,f32,i32; + the four-row middle zone M=2W+5 (K in {3,2W+3}, N in {W+2,2W+1,2W+3}); N in W+1..2W-1 for M=2,K=3; tensor/expression operand combinations on (3,3,3),(5,4,W+2) for f64,f32; nine tag pairs; S2,A1,A2,A5",
             "thorough": "f64: M,N<=13 x K in {1,2,3,4,5,8,9,13} on S2/A2/A5, cube<=8 on S0/S4/A1; f32,i32,i64: cube<=6 (main ISAs) + "
-                        "N in {W-1..W+1,2W..2W+2,3W+1}; M in {2W+4,2W+5,2W+7,3W+5} x K in {3,W+2,2W+3} x N in {W+2,2W+1,2W+3} (four-row middle zone); nine tag pairs; six ISAs + C++17 + ASan"}[tier]
+                        "N in {W-1..W+1,2W..2W+2,3W+1}; M in {2W+4,2W+5,2W+7,3W+5} x K in {3,W+2,2W+3} x N in {W+2,2W+1,2W+3} (four-row middle zone); tensor/expression operand combinations on four shapes; nine tag pairs; six ISAs + C++17 + ASan"}[tier]
